@@ -41,12 +41,13 @@ Section SlotAll.
     slot_goal sc fuel' c cur i f rawP unk curP x.
   Proof.
     intros Hr Hclean Hkeys HG.
+    assert (Hsib' : sel <> Some false -> forall g, fgroup f = Some g -> sibs_clear fs rawP g i).
+    { intros Hn g Hg. destruct sel as [[|]|] eqn:Hsel; [apply Hsib; auto | congruence |].
+      pose proof (group_selects_shape cur f i) as Hsh. fold sel in Hsh. rewrite Hsel in Hsh. congruence. }
     destruct (sel) as [[|]|] eqn:Hsel.
     2:{ apply slot_unselected; auto. }
     all: assert (Hne : group_selects cur f i <> Some false) by (fold sel; rewrite Hsel; discriminate).
-    all: assert (Hsib' : forall g, fgroup f = Some g -> sibs_clear fs rawP g i);
-      [ first [ exact (Hsib Hsel)
-              | intros g Hg'; pose proof (sel_none_group cur i f Hsel) as Hg0; congruence ] | ].
+    all: specialize (Hsib' ltac:(discriminate)).
     all: destruct (is_singular x) eqn:Hx.
     1,3: (destruct (singular_hint x Hx Hr) as (p & Hp);
           assert (HG' : elemP (Good sc) x) by (destruct x; try discriminate Hx; try exact I; exact HG);
@@ -69,7 +70,7 @@ Section SlotAll.
     - assert (Hh : exists p, fhint f = HList p).
       { unfold slot_in_range in Hr. destruct (fhint f) as [p|p|p|pk pv'] eqn:Hh; eauto; try discriminate Hr;
           try (destruct p; try discriminate Hr; destruct (fty f); try destruct (fwraps f); try discriminate Hr; destruct p0; discriminate Hr). }
-      destruct Hh as (p & Hh). apply (slot_list sc fuel' c Hbi cur i f Hf Hnd Hwf rawP unk curP Hfresh Hlen p Hh l Hr HG).
+      destruct Hh as (p & Hh). apply (slot_list sc fuel' c Hbi cur i f Hf Hnd Hwf rawP unk curP Hfresh Hlen Hsib' p Hh l Hr HG).
     - assert (Hh : exists pk pv', fhint f = HDict pk pv').
       { unfold slot_in_range in Hr. destruct (fhint f) as [p|p|p|pk pv'] eqn:Hh; eauto; try discriminate Hr;
           try (destruct p; try discriminate Hr; destruct (fty f); try destruct (fwraps f); try discriminate Hr; destruct p0; discriminate Hr). }
